@@ -307,18 +307,24 @@ fn main() {
     let mut out = std::io::LineWriter::new(stdout.lock());
     let mut parsers: Vec<AisParser> = (0..4).map(|_| AisParser::new()).collect();
     let mut o = String::with_capacity(1 << 16);
+    let mut shadow = false;
     for line in stdin.lock().lines() {
         let line = line.unwrap();
         let f: Vec<&str> = line.split(' ').collect();
         o.clear();
         match f[0] {
-            "H" => { parsers = (0..4).map(|_| AisParser::new()).collect(); o.push('H'); }
+            // `H c`: the shadow parsers 2, 3 mirror every call of this history (needed for the
+            // second conversion of `C` steps)
+            "H" => { parsers = (0..4).map(|_| AisParser::new()).collect(); shadow = f.len() > 1; o.push('H'); }
             "L" | "C" => {
                 let p: usize = f[1].parse().unwrap();
                 let decode = f[2] == "1";
                 let bytes = unhex(f[3]);
                 let r = catch_unwind(AssertUnwindSafe(|| parsers[p].parse(&bytes, decode))).map_err(|_| ());
                 step_tokens(&r, &mut o);
+                if f[0] == "L" && shadow {
+                    let _ = catch_unwind(AssertUnwindSafe(|| parsers[p + 2].parse(&bytes, decode)));
+                }
                 if f[0] == "C" {
                     // the same call on the shadow parser p+2 gives a second value to convert
                     let r2 = catch_unwind(AssertUnwindSafe(|| parsers[p + 2].parse(&bytes, decode))).map_err(|_| ());
